@@ -131,26 +131,37 @@ inductive Xfer where
   | ok (amount : Nat)
   deriving Repr, DecidableEq
 
+/-- the distribution half of the swap-fee branch (gauge.go:264-281): `none` = `continue` (distribution error or the
+sum-of-shares guard), else the gauge with `DepositAmount -= distributed`, `DistributedAmount += distributed` and the coins
+handed to `doDistributionSends` -/
+def sfDistribute (g : SfGauge) (d : DistData) : Except String (Option (SfGauge × List Int)) :=
+  if g.deposit > 0 then
+    match d with
+    | .err => .ok none
+    | .ok rs =>
+      if anyNeg rs then .error "negative coin amount"
+      else if sumL rs > g.deposit then .ok none                      -- ErrInvalidCalculatedAMount
+      else .ok (some ({ g with deposit := g.deposit - sumL rs, distributed := g.distributed + sumL rs }, rs))
+  else .ok (some (g, []))
+
 /-- One pass of the swap-fee branch.  Returns the stored gauge, the coins handed to `doDistributionSends` and the coins
-received.  NOTE the `continue` after a failed transfer (gauge.go:284-287) comes AFTER the distribution and BEFORE
-`SetGauge`: the coins have been paid but the record keeps its `DepositAmount`. -/
+received.  When the fee transfer fails (gauge.go:284-291) the distribution that has just been paid IS recorded
+(`SetGauge` before the `continue`, repository commit b0fa4d4); `TriggeredCount` stays as it was in that branch. -/
 def sfTrigger (g : SfGauge) (d : DistData) (x : Xfer) : Except String (SfGauge × List Int × Int) :=
-  let dist : Except String (Option (SfGauge × List Int)) :=          -- `none` = `continue`
-    if g.deposit > 0 then
-      match d with
-      | .err => .ok none
-      | .ok rs =>
-        if anyNeg rs then .error "negative coin amount"
-        else if sumL rs > g.deposit then .ok none                      -- ErrInvalidCalculatedAMount
-        else .ok (some ({ g with deposit := g.deposit - sumL rs, distributed := g.distributed + sumL rs }, rs))
-    else .ok (some (g, []))
-  match dist with
+  match sfDistribute g d with
   | .error e => .error e
   | .ok none => .ok (g, [], 0)
   | .ok (some (g1, sends)) =>
     match x with
-    | .err => .ok (g, sends, 0)
+    | .err => .ok (g1, sends, 0)
     | .ok amt => .ok ({ g1 with deposit := g1.deposit + amt, triggered := g1.triggered + 1 }, sends, amt)
+
+/-- the same pass as the code had it BEFORE commit b0fa4d4 (finding D44): a failed transfer `continue`d before `SetGauge`,
+so the record kept the `DepositAmount` that had just been paid out.  Only used by `sf_gauge_leak_before_fix_counterexample`. -/
+def sfTriggerBeforeFix (g : SfGauge) (d : DistData) (x : Xfer) : Except String (SfGauge × List Int × Int) :=
+  match sfDistribute g d, x with
+  | .ok (some (_, sends)), .err => .ok (g, sends, 0)
+  | _, _ => sfTrigger g d x
 
 /-- guards of `MsgCreateGauge` (ValidateBasic, then ValidateMsgCreateGauge), `dur`/`minDur` in nanoseconds.
 `total = 0` is refused by `ValidateBasic` (tx.go, "total triggers should be positive").  `aux` stands for the guards
@@ -444,17 +455,6 @@ def remSfs : List SfGauge → Int
   | [] => 0
   | g :: gs => g.deposit + remSfs gs
 
-/-- the one situation in which the swap-fee branch loses track of coins: the distribution paid something and the transfer
-that follows failed (so `SetGauge` was skipped) -/
-def sfLeak (g : SfGauge) (d : DistData) (x : Xfer) : Bool :=
-  match x, sfTrigger g d x with
-  | .err, .ok (_, sends, _) => decide (sumL sends ≠ 0)
-  | _, _ => false
-
-def bopLeaks (l : Ledger) : BOp → Bool
-  | .sfTrigger i d x => match l.sfs[i]? with | some g => sfLeak g d x | none => false
-  | _ => false
-
 def remActiveGauges : List Gauge → Int
   | [] => 0
   | g :: gs => (if g.active then gaugeRem g else 0) + remActiveGauges gs
@@ -469,14 +469,5 @@ def gaugeOk (g : Gauge) : Bool :=
 
 def custodyOk (bal : Int) (gs : List Gauge) (xs : List Ext) : Bool :=
   decide (remGauges gs + remExts xs ≤ bal) && xs.all (fun x => decide (0 ≤ x.avail)) && gs.all gaugeOk
-
-/-- no swap-fee trigger of the history is a leak (`sfLeak`): evaluated along the run -/
-def noLeakB (l : Ledger) : List BOp → Bool
-  | [] => true
-  | o :: os => !bopLeaks l o && (match stepB l o with | .ok l' => noLeakB l' os | .error _ => true)
-
-def noLeak (l : Ledger) : List Op → Bool
-  | [] => true
-  | o :: os => (match o with | .block ops => noLeakB l ops | _ => true) && noLeak (step l o) os
 
 end Comdex.Gauge
